@@ -11,6 +11,9 @@ Definition latch (p : pf) (tv : Q) : pf := {| pf_units := pf_units p; pf_static 
 (* Portfolio.deposit_withdraw: tv_before / tv_after are the total values around Account.deposit_withdraw *)
 Definition pf_deposit (p : pf) (tv_before tv_after : Q) : pf :=
   {| pf_units := qdiv tv_after (unit_net_value p tv_before); pf_static := pf_static p |}.
+(* ... which refuses a flow when the unit net value is 0 (a wiped-out portfolio: units cannot be converted), before anything is changed *)
+Definition pf_deposit_checked (p : pf) (tv_before tv_after : Q) : option pf :=
+  if qeq_b (unit_net_value p tv_before) 0 then None else Some (pf_deposit p tv_before tv_after).
 Definition daily_returns (p : pf) (tv : Q) : Q := qsub (qdiv (unit_net_value p tv) (pf_static p)) 1.
 Definition total_returns (p : pf) (tv : Q) : Q := qsub (unit_net_value p tv) 1.
 
